@@ -160,10 +160,10 @@ func mkT[T comparable](name string, l keylock.TLocker[T], conv func(int) T) lock
 
 var primes = []uint64{1, 2, 3, 5, 73}
 
-func intKey(k int) int       { return k }
-func strKey(k int) string    { return fmt.Sprintf("key-%d", k) }
-func i64Key(k int) int64     { return int64(k) - 2 } // includes negative keys
-func u32Key(k int) uint32    { return uint32(k) * 1000003 }
+func intKey(k int) int                                   { return k }
+func strKey(k int) string                                { return fmt.Sprintf("key-%d", k) }
+func i64Key(k int) int64                                 { return int64(k) - 2 } // includes negative keys
+func u32Key(k int) uint32                                { return uint32(k) * 1000003 }
 func pick[T any](r interface{ Intn(int) int }, xs []T) T { return xs[r.Intn(len(xs))] }
 
 func newLocker(r interface{ Intn(int) int }) locker {
